@@ -94,6 +94,16 @@ CLAIMED["C20"] = dict(
            "the result. Not decided: layout-only effect of options and wrappers on arbitrary values."),
     note=_NOTE, technique="static analysis: name-table agreement, sanitiser-alphabet inclusion, save/clear pairing and delegation-shape rules on MIR")
 
+CLAIMED["C05"] = dict(
+    level=("Static decision (BALANCE) over every CFG path of the streaming deserializer: a census of all functions that consume a "
+           "container-start event, each held to its reviewed obligation — deserialize_seq / bytes / unit_struct / option succeed only "
+           "through the edge on which the matching end event was seen; MapAccess answers None only after the MappingEnd, SeqAccess "
+           "only at the SequenceEnd; next_value_seed is guarded by have_key; the four VariantAccess methods reach expect_map_end on "
+           "every success path in `{Variant: payload}` mode and every unit_variant accepts only an absent / null-like payload; "
+           "expect_*_start succeed only on their own event; single-document entries reject leftovers. Not decided: that every Rust "
+           "position is filled from the corresponding node (semantics of arbitrary serde visitors)."),
+    note=_NOTE, technique="static analysis: MIR edge-dominance (end-of-container verified before success), consumer census, sibling agreement")
+
 NOT_APPLICABLE = {("C%02d" % i): _NB for i in range(1, 21) if ("C%02d" % i) not in CLAIMED}
 
 CLAIMED["C10"] = dict(
@@ -171,5 +181,15 @@ CLAIMED["C20"] = dict(
            "emitter; the six wrappers' Deserialize impls hand the deserializer once, untouched, to the inner type and only wrap "
            "the result. Not decided: layout-only effect of options and wrappers on arbitrary values."),
     note=_NOTE, technique="static analysis: name-table agreement, sanitiser-alphabet inclusion, save/clear pairing and delegation-shape rules on MIR")
+
+CLAIMED["C05"] = dict(
+    level=("Static decision (BALANCE) over every CFG path of the streaming deserializer: a census of all functions that consume a "
+           "container-start event, each held to its reviewed obligation — deserialize_seq / bytes / unit_struct / option succeed only "
+           "through the edge on which the matching end event was seen; MapAccess answers None only after the MappingEnd, SeqAccess "
+           "only at the SequenceEnd; next_value_seed is guarded by have_key; the four VariantAccess methods reach expect_map_end on "
+           "every success path in `{Variant: payload}` mode and every unit_variant accepts only an absent / null-like payload; "
+           "expect_*_start succeed only on their own event; single-document entries reject leftovers. Not decided: that every Rust "
+           "position is filled from the corresponding node (semantics of arbitrary serde visitors)."),
+    note=_NOTE, technique="static analysis: MIR edge-dominance (end-of-container verified before success), consumer census, sibling agreement")
 
 NOT_APPLICABLE = {("C%02d" % i): _NB for i in range(1, 21) if ("C%02d" % i) not in CLAIMED}
